@@ -393,8 +393,9 @@ pub struct GenCfg {
     pub max_fields: usize,
     /// longest "small" payload
     pub small: usize,
-    /// allow 4 KiB / 64 KiB payloads
+    /// allow big payloads (a few hundred bytes up to `big_max`; 64 KiB when big_max >= 65537)
     pub big: bool,
+    pub big_max: u32,
     pub crdt: bool,
     pub bump: bool,
     /// string keys and hash keys are disjoint (no type flips on one key)
@@ -404,29 +405,29 @@ pub struct GenCfg {
     pub max_hfields: usize,
     /// adversarial key/field names (empty, control characters, long, astral …)
     pub adversarial_names: bool,
-    /// expiry restricted to whole seconds (what SETEX can carry on re-application)
+    /// expiry restricted to >= 1 s and < 10^8 ms (what SETEX can carry on re-application)
     pub whole_second_expiry: bool,
 }
 
-pub fn payload(small: usize, big: bool) -> BoxedStrategy<Payload> {
+pub fn payload(small: usize, big: bool, big_max: u32) -> BoxedStrategy<Payload> {
     let b = |v: Vec<u8>| Payload::Bytes(v);
     let mut alts: Vec<(u32, BoxedStrategy<Payload>)> = vec![
-        (2, Just(Payload::Bytes(vec![])).boxed()),
-        (2, any::<u8>().prop_map(move |c| Payload::Bytes(vec![c])).boxed()),
+        (8, Just(Payload::Bytes(vec![])).boxed()),
+        (8, any::<u8>().prop_map(move |c| Payload::Bytes(vec![c])).boxed()),
         (
-            6,
+            24,
             proptest::collection::vec(any::<u8>(), 0..=small)
                 .prop_map(b)
                 .boxed(),
         ),
         (
-            4,
+            16,
             proptest::collection::vec(0x20u8..0x7f, 0..=small)
                 .prop_map(b)
                 .boxed(),
         ),
         (
-            2,
+            8,
             prop_oneof![
                 Just(b"0".to_vec()),
                 Just(b"-0".to_vec()),
@@ -449,7 +450,7 @@ pub fn payload(small: usize, big: bool) -> BoxedStrategy<Payload> {
         alts.push((
             1,
             (any::<u8>(), prop_oneof![Just(4096u32), Just(65536u32), Just(65537u32), 300u32..3000])
-                .prop_map(|(seed, len)| Payload::Big { len, seed })
+                .prop_map(move |(seed, len)| Payload::Big { len: len.min(big_max), seed })
                 .boxed(),
         ));
     }
@@ -516,7 +517,8 @@ fn expiry(whole: bool) -> BoxedStrategy<Option<u64>> {
     if whole {
         prop_oneof![
             3 => Just(None),
-            2 => (1u64..100_000).prop_map(|s| Some(s * 1000)),
+            1 => (1u64..100_000).prop_map(|s| Some(s * 1000)),
+            1 => (1000u64..100_000_000).prop_map(Some),
         ]
         .boxed()
     } else {
@@ -535,7 +537,7 @@ fn rf() -> impl Strategy<Value = Option<u8>> {
 }
 
 pub fn op(cfg: &GenCfg) -> BoxedStrategy<Op> {
-    let pl = payload(cfg.small, cfg.big);
+    let pl = payload(cfg.small, cfg.big, cfg.big_max);
     let max_hf = cfg.max_hfields.max(1);
     let mut alts: Vec<(u32, BoxedStrategy<Op>)> = vec![
         (
@@ -625,8 +627,37 @@ pub fn op(cfg: &GenCfg) -> BoxedStrategy<Op> {
     proptest::strategy::Union::new_weighted(alts).boxed()
 }
 
+/// an op that always emits an update (so that no generated world is empty)
+fn emitting_op(cfg: &GenCfg) -> BoxedStrategy<Op> {
+    let pl = payload(cfg.small, cfg.big, cfg.big_max);
+    prop_oneof![
+        (any::<u8>(), any::<u8>(), pl.clone(), expiry(cfg.whole_second_expiry), rf()).prop_map(
+            |(rep, key, val, expiry, rf)| Op::Write {
+                rep,
+                key,
+                val,
+                expiry,
+                rf,
+            }
+        ),
+        (any::<u8>(), any::<u8>(), any::<u8>(), pl).prop_map(|(rep, key, f, p)| Op::HSet {
+            rep,
+            key,
+            fields: vec![(f, p)],
+        }),
+    ]
+    .boxed()
+}
+
 pub fn world(cfg: GenCfg) -> impl Strategy<Value = WorldSpec> {
-    let ops = proptest::collection::vec(op(&cfg), 1..=cfg.max_ops);
+    let ops = (
+        emitting_op(&cfg),
+        proptest::collection::vec(op(&cfg), 0..cfg.max_ops.max(1)),
+    )
+        .prop_map(|(first, mut rest)| {
+            rest.insert(0, first);
+            rest
+        });
     let typed = cfg.typed;
     let sharded = cfg.sharded;
     (
@@ -767,4 +798,71 @@ impl Features {
         }
         v
     }
+}
+
+// ---------------------------------------------------------------------------------------
+// accessor-based projection
+// ---------------------------------------------------------------------------------------
+
+/// A second projection of a replicated value that does NOT go through serde (vcore's
+/// `peer_view` does, so a field that is not serialised would vanish on both sides of a
+/// round-trip comparison): built from the public fields and accessors only. Private internals
+/// (ORSet sequence counters, the positive/negative halves of a PNCounter) are covered by the
+/// serde-based view alone; replica ids 0..=12 are probed for vector clocks and counters (the
+/// generators use 1..=3 and 9).
+pub fn access_view(v: &ReplicatedValue) -> serde_json::Value {
+    use serde_json::json;
+    let reg = |r: &redis_sim::replication::LwwRegister<SDS>| {
+        // bytes as a Latin-1 string: one JSON string instead of one JSON number per byte
+        let text = |s: &SDS| s.as_bytes().iter().map(|&b| b as char).collect::<String>();
+        json!({
+            "value": r.value.as_ref().map(text),
+            "visible": r.get().is_some(),
+            "time": r.timestamp.time,
+            "replica": r.timestamp.replica_id.0,
+            "tombstone": r.tombstone,
+        })
+    };
+    let ids = || (0u64..=12).map(ReplicaId::new);
+    let crdt = match &v.crdt {
+        CrdtValue::Lww(l) => json!({"lww": reg(l)}),
+        CrdtValue::Hash(h) => {
+            let m: BTreeMap<&String, serde_json::Value> = h.iter().map(|(f, r)| (f, reg(r))).collect();
+            json!({"hash": m})
+        }
+        CrdtValue::GCounter(c) => json!({
+            "gcounter": c.value(),
+            "per_replica": ids().map(|i| c.get_replica_count(&i)).collect::<Vec<_>>(),
+        }),
+        CrdtValue::PNCounter(c) => json!({"pncounter": c.value()}),
+        CrdtValue::GSet(s) => {
+            let mut m: Vec<&String> = s.elements().collect();
+            m.sort();
+            json!({"gset": m, "len": s.len()})
+        }
+        CrdtValue::ORSet(s) => {
+            let mut m: Vec<(&String, Vec<(u64, u64)>)> = s
+                .elements()
+                .map(|e| {
+                    let mut tags: Vec<(u64, u64)> = s
+                        .get_tags(e)
+                        .map(|t| t.iter().map(|t| (t.replica_id.0, t.sequence)).collect())
+                        .unwrap_or_default();
+                    tags.sort();
+                    (e, tags)
+                })
+                .collect();
+            m.sort();
+            json!({"orset": m})
+        }
+    };
+    json!({
+        "type": v.crdt_type(),
+        "crdt": crdt,
+        "vector_clock": v.vector_clock.as_ref().map(|vc| ids().map(|i| vc.get(&i)).collect::<Vec<_>>()),
+        "expiry_ms": v.expiry_ms,
+        "time": v.timestamp.time,
+        "replica": v.timestamp.replica_id.0,
+        "replication_factor": v.replication_factor,
+    })
 }
